@@ -37,6 +37,7 @@ QUERIES = {
     "res": lambda c: proj_res(c.to_shelx_string()),
     "poscar": lambda c: proj_poscar(c.to_poscar_string()),
     "as_P1": lambda c: c.as_P1(),
+    "cartesian_symops": lambda c: c.cartesian_symmetry_operations(),
 }
 MUTATORS = {
     "to_H": lambda c: c.choose_trigonal_lattice("H"),
@@ -111,8 +112,25 @@ def water_r3(choice):
     return c
 
 
+def ammonia_water_r3():
+    """R-3 (hexagonal axes): NH3 on the three-fold axis (N at 0,0,z + one unique H) listed BEFORE a general-position water"""
+    from mc.ref import lattice
+
+    cell = (12.0, 12.0, 10.0, 90.0, 90.0, 120.0)
+    M = lattice.cell_matrix(*cell)
+    Mi = np.linalg.inv(M)
+    o = np.array([0.42, 0.12, 0.30]) @ M
+    h1 = o + np.array([0.757, 0.586, 0.0])
+    h2 = o + np.array([-0.757, 0.586, 0.0])
+    frac = np.vstack([[0.0, 0.0, 0.25], [0.08, 0.0, 0.22], o @ Mi, h1 @ Mi, h2 @ Mi])
+    return xtal.make_crystal(148, "H", cell, ["N", "H", "O", "H", "H"], frac, labels=["N1", "H1", "O1", "H2", "H3"])
+
+
 def initial(kind):
     from chmpy.crystal import Crystal
+
+    if kind == "ammonia_water_H":
+        return ammonia_water_r3()
 
     if kind == "water_H":
         return water_r3("H")
@@ -194,32 +212,74 @@ def step(part, c, op, hist, kind, check=True):
 post_digest_holder = {}
 
 
-def replay_history(kind, hist):
+def replay_history(kind, hist, hold=False):
     c = initial(kind)
+    held = []
     for op in hist:
-        c = step(None, c, op, [], kind, check=False)
-    return c
+        if hold and op in QUERIES:
+            a = answer(QUERIES[op], c)
+            held.append((op, a, xtal.answer_digest(a)))
+        else:
+            c = step(None, c, op, [], kind, check=False)
+    return (c, held) if hold else c
 
 
 def expand(part, job):
     """all transitions out of one state (kind, hist): executed on the real object, invariant evaluated"""
     kind, hist = job
     for op in ALPHABET:
-        c = replay_history(kind, hist)
+        c, held = replay_history(kind, hist, hold=True)
         post_digest_holder.pop("d", None)
         c = step(part, c, op, hist, kind, check=True)
+        # answers handed out earlier must not change under later operations (no aliasing with internal state)
+        for hop, ha, hd in held:
+            if xtal.answer_digest(ha) != hd:
+                part.fail("earlier-answer-changed:%s:by:%s:%s" % (hop, op, kind),
+                          "the answer %s() returned earlier in history %s changed when %s was executed afterwards" % (hop, hist, op),
+                          {"structure": kind, "history": list(hist), "op": op})
+                break
         part.ev()
         d = post_digest_holder.get("d") or xtal.state_digest(c)
         part.outcome((op, d))
         part.extra.append((kind, tuple(hist), op, d))
 
 
+def aliasing_worker(part, job):
+    """
+    answers handed out earlier must not change under later operations.  The canonical-state search above cannot
+    see this (an outstanding reference is not part of the object's state, so histories that only differ in which
+    answers are still held are merged); here every history up to the bound is executed WITHOUT deduplication.
+    """
+    kind, prefix = job
+    for op in ALPHABET:
+        c = initial(kind)
+        held = []
+        hist = list(prefix) + [op]
+        part.ev()
+        for i, o in enumerate(hist):
+            part.tr()
+            if o in QUERIES:
+                a = answer(QUERIES[o], c)
+            else:
+                a = None
+                c = step(None, c, o, [], kind, check=False)
+            bad = [hop for hop, ha, hd in held if xtal.answer_digest(ha) != hd]
+            if bad:
+                part.fail("earlier-answer-changed:%s:by:%s:%s" % (bad[0], o, kind),
+                          "the answer %s() returned earlier in history %s changed when %s was executed afterwards" % (bad[0], hist[:i], o),
+                          {"kind": "alias", "structure": kind, "history": list(prefix), "op": op})
+                break
+            if a is not None:
+                held.append((o, a, xtal.answer_digest(a)))
+        part.outcome(("alias", op, len(held)))
+
+
 def run(ctx):
-    kinds = ["water_H", "water_R", "water_H_cif", "r3c_example"]
+    kinds = ["water_H", "water_R", "water_H_cif", "r3c_example", "ammonia_water_H"]
     max_depth = 8 if ctx.thorough else 6
     cap = 20000 if ctx.thorough else 1500
     ctx.bounds = {"alphabet": ALPHABET, "structures": kinds, "max_depth": max_depth, "state_cap": cap}
-    ctx.rule = ("level-synchronous BFS over operation lists (13 queries with fixed arguments, 2 trigonal switches, deepcopy) on real "
+    ctx.rule = ("level-synchronous BFS over operation lists (14 queries with fixed arguments, 2 trigonal switches, deepcopy) on real "
                 "Crystal objects; state = digest of vars(obj) recursively (public fields + properties + all memo attributes); every "
                 "transition compares the answer with a freshly built crystal; distinct = canonical states")
     ctx.assumptions = ["methods read only instance state reachable from vars(obj) (so equal digests have equal futures)",
@@ -248,6 +308,13 @@ def run(ctx):
         ctx.sample({"structure": k, "states": len(seen[k]), "a_longest_new_state_history": longest})
     ctx.count("depth_completed", depth)
     ctx.count("closed", 1 if closed else 0)
+    import itertools as it
+
+    alias_depth = 2 if ctx.thorough else 2
+    prefixes = [(k, list(h)) for k in kinds for L in range(1, alias_depth + 1) for h in it.product(ALPHABET, repeat=L)
+                if any(x in QUERIES for x in h) and (L == 1 or k in ("water_H", "ammonia_water_H", "water_H_cif") or ctx.thorough)]
+    ctx.pmap(aliasing_worker, prefixes)
+    ctx.bounds["aliasing_histories"] = "%d prefixes of length <= %d (no deduplication) x %d final operations" % (len(prefixes), alias_depth, len(ALPHABET))
     # secondary binding: TLA+ memo-protocol model explored by TLC, every edge replayed on the real object
     from mc.checks import c14_tla
     import mc.checks.c14 as me
@@ -267,6 +334,9 @@ def run(ctx):
 
 
 def replay(ctx, case):
+    if case.get("kind") == "alias":
+        aliasing_worker(ctx, (case["structure"], case["history"]))
+        return
     if case.get("kind") == "tla":
         from mc.checks import c14_tla
         import mc.checks.c14 as me
